@@ -393,3 +393,54 @@ def check_ok_after_failure(prog, chk, rule_id, rules):
                "the store of the OK verdict is reachable while the status of a helper call is a failure that was only compared with particular "
                "error codes: what could not be verified is reported as verified", loc=fn.loc(), fn=fn,
                path=None if path is None else path_lines(fn, path), nontrivial=ncalls > 0)
+
+
+def check_input_level(prog, chk, rule_id):
+    """AggregationChainInputLevelVerification over the boundaries of (document level, first level correction, legacy record):
+    OK iff level == 0, or level <= 0xff, no RFC-3161 record and level <= first level correction; level > 0xff is an input error."""
+    from ksirules.interp import TOP, Interp, Ptr, list_overrides
+    from ksirules.model import strip
+    from ksirules.ruletable import succeed_model_named
+    fn = prog.fn(PFX + "AggregationChainInputLevelVerification", "verification_rule.c")
+    ip, rp = fn.params[0]["n"], fn.params[1]["n"]
+    K = prog.const
+    OKC, NAC, FAIL = K("KSI_VER_RES_OK"), K("KSI_VER_RES_NA"), K("KSI_VER_RES_FAIL")
+    GEN3, GEN2, NONE = K("KSI_VER_ERR_GEN_3"), K("KSI_VER_ERR_GEN_2"), K("KSI_VER_ERR_NONE")
+    BADIN = K("KSI_INVALID_VERIFICATION_INPUT")
+    big = [0x100, 0x101, 0xffffffff, 1 << 32, (1 << 32) + 3, 1 << 63, (1 << 64) - 1]
+    for level, corr, legacy in [(0, 0, 0), (0, 5, 1), (1, 0, 0), (1, 1, 0), (1, 2, 0), (5, 4, 0), (5, 5, 0), (5, 6, 0), (0xff, 0xff, 0), (0xff, 0xfe, 0),
+                                (1, 5, 1), (5, 5, 1)] + [(b, 0xff, 0) for b in big] + [(b, 3, 0) for b in big[3:5]]:
+        lists = {"CH": [Ptr("chain0")], "LL": [Ptr("link0")]}
+        length, element_at = list_overrides(lists)
+        inputs = {ip: Ptr("info"), rp: Ptr("result"), "info->ctx": Ptr("ctx"), "info->signature": Ptr("sig"), "info->docAggrLevel": level,
+                  "sig->aggregationChainList": Ptr("CH"), "sig->rfc3161": Ptr("rfc") if legacy else 0, "chain0->chain": Ptr("LL"),
+                  "link0->levelCorrection": Ptr("LC"), "LC->value": corr}
+
+        def getter(field):
+            def g(I, p, node, args):
+                out = strip(node["a"][1])
+                I.write(p, I.canon(p, I.key_of(p, out["e"])), I.read(p, "%s->%s" % (args[0].what, field)) if isinstance(args[0], Ptr) else TOP)
+                return 0
+            return g
+        ov = {"KSI_AggregationHashChainList_elementAt": element_at, "KSI_HashChainLinkList_elementAt": element_at,
+              "KSI_AggregationHashChain_getChain": getter("chain"), "KSI_HashChainLink_getLevelCorrection": getter("levelCorrection"),
+              "KSI_Integer_getUInt64": lambda I, p, n, a: I.read(p, "%s->value" % a[0].what) if isinstance(a[0], Ptr) else 0}
+        I = Interp(fn, inputs=inputs, call_model=succeed_model_named(prog, ov), on_unknown="stop", prog=prog)
+        paths = I.run()
+        chk.paths += len(paths)
+        inst = "InputLevel[level=%#x,first correction=%#x,%s]" % (level, corr, "legacy record" if legacy else "no legacy record")
+        if len(paths) != 1 or paths[0].undetermined:
+            raise AnalysisBroken("InputLevelVerification: evaluation not determined for %s: %s" % (inst, [q.undetermined[:1] for q in paths]))
+        q = paths[0]
+        rc = [s[2] for s in q.stores("result->resultCode")]
+        ec = [s[2] for s in q.stores("result->errorCode")]
+        got = (rc[-1] if rc else None, ec[-1] if ec else None, q.ret)
+        if level == 0:
+            want = (OKC, NONE, 0)
+        elif level > 0xff:
+            want = (NAC, GEN2, BADIN)
+        elif legacy or corr < level:
+            want = (FAIL, GEN3, 0)
+        else:
+            want = (OKC, NONE, 0)
+        chk.ob(rule_id, inst, got == want, "expected (result, error code, status) = %s, source gives %s" % (want, got), loc=fn.loc(), fn=fn)
